@@ -146,23 +146,35 @@ Definition fft (s : st) (v : list Z) (n : nat) : st * list C :=
 (** ** fft_inv / fft_inv_into *)
 Definition round_pairs (buf : list C) : list Z :=
   flat_map (fun c => [to_int ops (fst c); to_int ops (snd c)]) buf.
-(** note: [max_n] is read WITHOUT a preceding [update_n] here, as in the code *)
+(** the code of [fft_inv_into] below its [n == 1] special case and below the [update_n(n)] call: copy into
+    the scratch buffer, folding step with the twiddle stride [max_n / n], inverse transform of half the size,
+    rounded write-out *)
+Definition fft_inv_body (s : st) (v : list C) (res : list Z) : st * list Z :=
+  let n := length v in
+  let i2 := fdiv ops (fone ops) (of_Z ops 2) in
+  let max_n := length (R s) in
+  let step := max_n / n in
+  let start := max_n - Nat.shiftr max_n 2 in
+  let buf := map (fun i => let bi := nth i v czero in let bj := nth (i + n / 2) v czero in
+                           cscale (csub (cadd bi bj) (cmul (csub bi bj) (nth (start - step * i) (W s) czero))) i2)
+                 (seq 0 (n / 2)) in
+  let '(s, buf) := fft_internal s buf true in
+  (s, zip_acc Z.add res (round_pairs buf)).
+Definition fft_inv_one (v : list C) (res : list Z) : list Z :=
+  match res with [] => [] | x :: t => (x + to_int ops (fst (nth 0 v czero)))%Z :: t end.
+(** the code as of /repo 23bca24: [self.update_n(n)] right after the [n == 1] case, BEFORE [max_n] is read *)
 Definition fft_inv_into (s : st) (v : list C) (res : list Z) : st * list Z :=
   let n := length v in
-  if n =? 1 then
-    (s, match res with [] => [] | x :: t => (x + to_int ops (fst (nth 0 v czero)))%Z :: t end)
-  else
-    let i2 := fdiv ops (fone ops) (of_Z ops 2) in
-    let max_n := length (R s) in
-    let step := max_n / n in
-    let start := max_n - Nat.shiftr max_n 2 in
-    let buf := map (fun i => let bi := nth i v czero in let bj := nth (i + n / 2) v czero in
-                             cscale (csub (cadd bi bj) (cmul (csub bi bj) (nth (start - step * i) (W s) czero))) i2)
-                   (seq 0 (n / 2)) in
-    let '(s, buf) := fft_internal s buf true in
-    (s, zip_acc Z.add res (round_pairs buf)).
+  if n =? 1 then (s, fft_inv_one v res)
+  else fft_inv_body (update_n s n) v res.
 Definition fft_inv (s : st) (v : list C) : st * list Z :=
   fft_inv_into s v (repeat 0%Z (length v)).
+(** the code BEFORE 23bca24 (kept for the record, see [c04_inv_old_refuted]): [max_n] was read without a
+    preceding [update_n], so on an object smaller than the spectrum the stride [max_n / n] was 0 *)
+Definition fft_inv_into_old (s : st) (v : list C) (res : list Z) : st * list Z :=
+  let n := length v in
+  if n =? 1 then (s, fft_inv_one v res)
+  else fft_inv_body s v res.
 
 (** ** multiply / multiply_into *)
 Definition unpack_step (n : nat) (i8 : C) (buf : list C) (i : nat) : list C :=
@@ -193,10 +205,22 @@ Definition multiply (s : st) (a b : list Z) : st * list Z :=
   else multiply_into s a b (repeat 0%Z (length a + length b - 1)).
 
 (** fft(a, n), fft(b, n), pointwise complex product, fft_inv_into — the route of clause (iv) *)
+Definition cprod (fa fb : list C) : list C := map (fun p => cmul (fst p) (snd p)) (combine fa fb).
 Definition inv_prod_into (s : st) (a b : list Z) (n : nat) (res : list Z) : st * list Z :=
   let '(s, fa) := fft s a n in
   let '(s, fb) := fft s b n in
-  fft_inv_into s (map (fun p => cmul (fst p) (snd p)) (combine fa fb)) res.
+  fft_inv_into s (cprod fa fb) res.
+(** the same route on TWO objects: both forward transforms on [s], the inverse transform on [s'] *)
+Definition inv_prod_x (s s' : st) (a b : list Z) (n : nat) (res : list Z) : (st * st) * list Z :=
+  let '(s, fa) := fft s a n in
+  let '(s, fb) := fft s b n in
+  let '(s', r) := fft_inv_into s' (cprod fa fb) res in
+  ((s, s'), r).
+Definition inv_prod_x_old (s s' : st) (a b : list Z) (n : nat) (res : list Z) : (st * st) * list Z :=
+  let '(s, fa) := fft s a n in
+  let '(s, fb) := fft s b n in
+  let '(s', r) := fft_inv_into_old s' (cprod fa fb) res in
+  ((s, s'), r).
 End Model.
 
 Arguments W {F}. Arguments R {F}. Arguments mkst {F}.
